@@ -2,6 +2,7 @@ package main
 
 import (
 	"fmt"
+	"go/token"
 	"go/types"
 	"sort"
 	"strings"
@@ -474,4 +475,50 @@ func mutableKind(t types.Type) bool {
 		}
 	}
 	return false
+}
+
+// checkPackageTablesReadOnly: the write half of C19's ownership rule, shared with C03 and C06:
+// what a command *is* — its Operation (network function, command number), payload descriptors,
+// layer-type tables — lives in package-level values handed out by pointer (Command.Operation()).
+// A store through such a pointer rewrites the command for every later packet of the process,
+// so "the request the caller asked for" stops being what is sent.
+func checkPackageTablesReadOnly(c *Ctx, r *Report) {
+	r.Rule("package-tables-read-only", "nothing outside package initialisers and the documented registration function stores through a pointer into package-level state (operations, descriptors, layer tables): a command's definition is the same for every packet", 1)
+	g := newGlobalTaint(c)
+	g.solve()
+	seenWriter := false
+	for _, fn := range g.fns {
+		if fn.Synthetic != "" && fn.Name() == "init" || strings.HasPrefix(fn.Name(), "init#") || fn.Name() == "init" {
+			continue
+		}
+		fname := c.FnName(fn)
+		allowed := fn.Name() == "RegisterOEMPayloadDescriptor"
+		for _, b := range fn.Blocks {
+			for _, in := range b.Instrs {
+				w, bad := "", false
+				switch x := in.(type) {
+				case *ssa.Store:
+					w, bad = g.tainted[x.Addr]
+				case *ssa.MapUpdate:
+					w, bad = g.tainted[x.Map]
+				case *ssa.Call:
+					if bi, ok := x.Call.Value.(*ssa.Builtin); ok {
+						switch bi.Name() {
+						case "copy", "append", "delete", "clear":
+							w, bad = g.tainted[x.Call.Args[0]]
+						}
+					}
+				}
+				if !bad {
+					continue
+				}
+				if allowed {
+					seenWriter = true
+					continue
+				}
+				r.Bad(fname+"|write through "+w, in.Pos(), "writes through a pointer into package-level state ("+w+"): the definition every later packet is built from is changed for the whole process")
+			}
+		}
+	}
+	r.Check(seenWriter, "positive control: documented writer seen", token.NoPos, "the analysis sees ipmi.RegisterOEMPayloadDescriptor's map update", "the taint no longer sees the documented writer: the rule would pass vacuously")
 }
